@@ -21,6 +21,7 @@ var props = map[string]struct {
 	"C06":    {"exploration", h.C06},
 	"C07":    {"exploration", h.C07},
 	"C12":    {"model_checking", h.C12},
+	"C22":    {"model_checking", h.C22},
 	"C14":    {"model_checking", h.C14},
 	"C15":    {"model_checking", h.C15},
 	"C16":    {"model_checking", h.C16},
